@@ -51,6 +51,7 @@ def build(chk):
         thbox = tuple(float(x) for x in F['box'])
         # ---- run A: reals, open at 0 (definedness obligations on), closed at 1 ------------------------------
         _, resA, _ = biv.run_method(fam, 'cumulative_distribution')
+        biv.crosscheck(chk, fam, 'cumulative_distribution', resA)
         # ---- run B: the closed square including 0 (no definedness obligations: Gumbel uses log 0 = -inf) ----
         closed_safe = fam in ('clayton', 'frank')
         _, resB, _ = biv.run_method(fam, 'cumulative_distribution', closed_at_zero=True, safety=closed_safe)
@@ -112,6 +113,7 @@ def build(chk):
                                              'the value the row has on its own')))
         # ---- generator ---------------------------------------------------------------------------------------
         _, resG, _ = biv.run_method(fam, 'generator', args='t')
+        biv.crosscheck(chk, fam, 'generator', resG, args='t')
         Gs = returned(resG)
         for r in resG:
             if r.outcome == 'unsupported':
